@@ -181,6 +181,7 @@ def parseOp (ws : List String) : Option Op :=
   | ["nth", it, k] => k.toNat?.map (.nth it)
   | ["nth_back", it, k] => k.toNat?.map (.nth_back it)
   | ["count", it] => some (.count it)
+  | ["last", it] => some (.last it)
   | ["views", r] => some (.views r)
   | ["iter_views", it] => some (.iter_views it)
   | ["clone_from_iter", it, src] => some (.clone_from_iter it src)
